@@ -494,7 +494,10 @@ class Executor:
         if getattr(self.contract, "must_hold_asserts", False):
             self.oblige("assert@%sL%d" % (getattr(self, "inl", ""), st.lineno - self.fn.lineno), c, st, "assert")
         else:
-            self.assumed.append("assert at L%d assumed (partial correctness: a failing assert raises)" % st.lineno)
+            if getattr(self.contract, "total", False):
+                self.assumed.append("assert at L%d: both branches explored, the failing one is the obligation returns-normally#AssertionError" % st.lineno)
+            else:
+                self.assumed.append("assert at L%d assumed (partial correctness: a failing assert raises)" % st.lineno)
             if not self.decide(c):
                 raise RaiseEx("AssertionError", st)
 
